@@ -216,7 +216,7 @@ def get_last(a: str, c: str) -> bool:
     post: _
     """
     key = envstr("VF_KEY", "version")
-    L = [PRE + a + MID + TAIL, PRE + c + MID + TAIL]
+    L = [PRE + a + MID + TAIL, PRE + c + MID + TAIL] + [x for x in envstr("VF_EXTRA", "").split(";") if x]
     STUB.items = L
     STUB.typed = True
     old = _find_all.get_finder
